@@ -451,3 +451,134 @@ Lemma stale_sampler_refuted :
   /\ generate_p _ stream_choice (fun ds shg src ev => [src]) 3 [[0%nat]] stale tbl dss 1
      = Ok (1, [(0, [[0]])], []).
 Proof. cbv zeta. split; [intros d [<-|[]]; vm_compute; reflexivity|vm_compute; reflexivity]. Qed.
+
+(* ------------------------------------------------ audit: more characterising lemmas *)
+(* what is masked is the variable assigned from the relocation call *)
+Lemma K_mask_data_flow e v :
+  redraw_relocated v = v /\ redraw_mask_arg e = e /\ gen_relocated v = v /\ gen_mask_arg e = e.
+Proof. repeat split; reflexivity. Qed.
+(* one loop with one change_shg_mgr call on the per-dataset generators *)
+Lemma K_md_change : md_change_calls = 1 /\ md_change_loops = 1.
+Proof. split; reflexivity. Qed.
+Lemma K_an_mean_zero m : an_mean_zero m = (m =? 0).
+Proof. reflexivity. Qed.
+Lemma K_an_inc a b : an_inc a b = a + b.
+Proof. reflexivity. Qed.
+Lemma K_an_slot_empty o : an_slot_empty o = match o with None => true | Some _ => false end.
+Proof. reflexivity. Qed.
+
+(* ------------------------------------------------ a contract-abiding oracle *)
+Lemma pos_idx_In p d : In d (pos_idx p) -> 0 < nth d p 0.
+Proof. unfold pos_idx. intros H. apply filter_In in H. destruct H as [_ H]. apply Z.ltb_lt. exact H. Qed.
+
+Lemma pos_idx_nonempty p : Exists (fun x => 0 < x) p -> pos_idx p <> [].
+Proof.
+  intros H. apply Exists_exists in H. destruct H as [x [Hin Hx]].
+  destruct (In_nth p x 0 Hin) as [i [Hi Hn]].
+  assert (Hm : In i (pos_idx p)).
+  { unfold pos_idx. apply filter_In. split; [apply in_seq; lia|]. rewrite Hn. apply Z.ltb_lt. exact Hx. }
+  intros E. rewrite E in Hm. exact Hm.
+Qed.
+
+Theorem cyc_choice_contract : choice_contract cyc_choice.
+Proof.
+  intros g p k. unfold cyc_choice. cbn [fst]. split.
+  - rewrite map_length. apply seq_length.
+  - intros _ Hex d Hin. apply in_map_iff in Hin. destruct Hin as [i [Hd _]]. subst d.
+    apply pos_idx_In. apply nth_In. apply Nat.mod_upper_bound.
+    pose proof (pos_idx_nonempty p Hex) as Hne. destruct (pos_idx p); [congruence|cbn [length]; lia].
+Qed.
+
+(* ------------------------------------------------ Analysis.generate_signal_events *)
+Section AnaP.
+  Variable rng : Type.
+  Variable E : Type.
+
+  Definition ev_total (evs : list (option (list E))) : Z :=
+    zsum (map (fun o => match o with None => 0 | Some l => zlen l end) evs).
+
+  Lemma zsum_map_set_nth {A} (f : A -> Z) : forall (l : list A) i v v',
+    nth_error l i = Some v -> zsum (map f (set_nth l i v')) = zsum (map f l) - f v + f v'.
+  Proof.
+    unfold zsum. induction l as [|a l IH]; intros [|i] v v' H; cbn [nth_error] in H; try discriminate.
+    - inversion H; subst. cbn [set_nth map fold_right]. lia.
+    - cbn [set_nth map fold_right]. rewrite (IH i v v' H). lia.
+  Qed.
+
+  Lemma py_get_set {A} (l : list A) k v v' : 0 <= k -> py_get l k = Ok v ->
+    py_set l k v' = Ok (set_nth l (Z.to_nat k) v') /\ nth_error l (Z.to_nat k) = Some v.
+  Proof.
+    unfold py_get, py_set. cbv zeta. intros Hk.
+    destruct (k <? 0) eqn:Ek0; [apply Z.ltb_lt in Ek0; lia|].
+    destruct ((k <? 0) || (zlen l <=? k)); [discriminate|].
+    destruct (nth_error l (Z.to_nat k)); [|discriminate]. intros H. inversion H; subst. split; reflexivity.
+  Qed.
+
+  (* the injection adds exactly the events of the dictionary: counts and event
+     lists grow by the same total, nothing else changes in length *)
+  Lemma an_inject_spec : forall (d : list (Z * list E)) ns evs ns' evs',
+    Forall (fun kv => 0 <= fst kv) d ->
+    an_inject E d ns evs = Ok (ns', evs') ->
+    zsum ns' = zsum ns + dict_total d /\ ev_total evs' = ev_total evs + dict_total d
+    /\ length ns' = length ns /\ length evs' = length evs.
+  Proof.
+    unfold dict_total, ev_total.
+    induction d as [|[k v] d IH]; intros ns evs ns' evs' Hk H; cbn [an_inject] in H.
+    - inversion H; subst. cbn. repeat split; lia.
+    - inversion Hk as [|kv d' Hk0 Hk']; subst. cbn [fst] in Hk0.
+      destruct (py_get ns k) as [n|] eqn:E1; [|discriminate]. cbn [bind] in H.
+      destruct (py_get_set ns k n (an_inc n (zlen v)) Hk0 E1) as [S1 N1]. rewrite S1 in H. cbn [bind] in H.
+      destruct (py_get evs k) as [e|] eqn:E2; [|discriminate]. cbn [bind] in H.
+      match type of H with context [py_set evs k ?x] => set (newv := x) in * end.
+      destruct (py_get_set evs k e newv Hk0 E2) as [S2 N2]. rewrite S2 in H. cbn [bind] in H.
+      destruct (IH _ _ _ _ Hk' H) as [I1 [I2 [I3 I4]]].
+      pose proof (zsum_map_set_nth (fun x : Z => x) ns _ n (an_inc n (zlen v)) N1) as Z1.
+      rewrite !map_id in Z1.
+      pose proof (zsum_map_set_nth (fun o : option (list E) => match o with None => 0 | Some l => zlen l end)
+                                   evs _ e newv N2) as Z2.
+      assert (Ka : an_inc n (zlen v) = n + zlen v) by apply K_an_inc.
+      assert (Enew : match newv with None => 0 | Some l => zlen l end
+                     = match e with None => 0 | Some l => zlen l end + zlen v).
+      { unfold newv. destruct e as [old|]; cbn; [rewrite zlen_app; reflexivity|lia]. }
+      rewrite I1, I2, I3, I4, !set_nth_length, Z1, Z2, Ka, Enew.
+      cbn [map snd zsum fold_right]. unfold zsum. repeat split; lia.
+  Qed.
+
+  (* at the site a user calls: with a generator that reports and returns what it
+     is asked for, the reported n_sig is the number of events added to the event
+     lists and to the per-dataset counters *)
+  Theorem an_generate_spec (gen : rng -> Z -> res (Z * list (Z * list E) * rng)) nds g mean ns evs n ns' evs' g' :
+    (forall g m n d g1, gen g m = Ok (n, d, g1) -> dict_total d = n /\ Forall (fun kv => 0 <= fst kv) d) ->
+    an_generate rng E gen nds g mean ns evs = Ok (n, ns', evs', g') ->
+    zsum ns' = zsum ns + n /\ ev_total evs' = ev_total evs + n
+    /\ length ns' = length ns /\ length evs' = length evs /\ zlen ns = nds /\ zlen evs = nds.
+  Proof.
+    intros Hgen H. unfold an_generate in H.
+    destruct (negb (zlen ns =? nds) || negb (zlen evs =? nds)) eqn:El; [discriminate|].
+    apply orb_false_iff in El. destruct El as [L1 L2].
+    apply negb_false_iff in L1. apply negb_false_iff in L2. apply Z.eqb_eq in L1. apply Z.eqb_eq in L2.
+    rewrite K_an_mean_zero in H. destruct (mean =? 0).
+    - inversion H; subst. repeat split; lia.
+    - destruct (gen g mean) as [[[n1 d1] g1]|] eqn:Eg; [|discriminate]. cbn [bind fst snd] in H.
+      destruct (an_inject E d1 ns evs) as [[a b]|] eqn:Ei; [|discriminate]. cbn [bind fst snd] in H.
+      inversion H; subst. destruct (Hgen _ _ _ _ _ Eg) as [Hd Hk].
+      destruct (an_inject_spec _ _ _ _ _ Hk Ei) as [I1 [I2 [I3 I4]]]. rewrite Hd in I1, I2.
+      repeat split; assumption.
+  Qed.
+End AnaP.
+
+(* ------------------------------------------------ change_shg_mgr of the multi generator *)
+Theorem md_change_ok : forall sts shgs sts',
+  md_change sts shgs = Ok sts' ->
+  Forall2 (fun o o' => match o, o' with
+                       | None, None => True
+                       | Some st, Some st' => mc_ok st' /\ g_shgs st' = shgs /\ g_dss st' = g_dss st
+                       | _, _ => False
+                       end) sts sts'.
+Proof.
+  unfold md_change. intros sts shgs sts' H. apply mapM_ok in H.
+  induction H as [|o o' sts sts' Ho H IH]; constructor; [|exact IH].
+  destruct o as [st|]; [|inversion Ho; exact I].
+  destruct (mc_init shgs (g_dss st)) as [s|] eqn:E; [|discriminate]. cbn [bind] in Ho. inversion Ho; subst.
+  destruct (mc_init_ok _ _ _ E) as [H1 [H2 H3]]. exact (conj H1 (conj H3 H2)).
+Qed.
